@@ -12,10 +12,14 @@ From Coq Require Import List Bool Arith NArith Lia Relations Permutation.
 Import ListNotations.
 From BB Require Import BN Brute SpaceFacts TrapFacts PercolateFacts AttractorFacts Diagram Invariants Checks Filter
   Strict PetriNet Control Meta FilterFacts PetriNetFacts TrappistFacts DiagramStruct DiagramSem1 DiagramCache
-  DiagramDepth DiagramComplete Termination ControlFacts MetaFacts.
+  DiagramDepth DiagramComplete Termination ControlFacts MetaFacts Candidates StrictFacts MinExpandFacts CandidatesFacts.
 
 Theorem C19_percolation_order_independent : forall (N : net) (S : list (option bool)) (P P' : space), length S = nvars N -> is_percolation N S P -> is_percolation N S P' -> P = P'.
 Proof. exact percolation_unique. Qed.
+
+(* iteration over the Python candidate set *)
+Theorem C19_strict_order_independent : forall (N : net) (order1 order2 : list nat) (S : list (option bool)), length S = nvars N -> NoDup order1 -> NoDup order2 -> (forall v : nat, In v order1 <-> v < nvars N) -> (forall v : nat, In v order2 <-> v < nvars N) -> percolate_strict_ord N order1 S = percolate_strict_ord N order2 S.
+Proof. exact strict_order_independent. Qed.
 
 Theorem C19_strict_fuel : forall (N : net) (order : list nat) (X : space) (f : nat), length X = nvars N -> S (nvars N) <= f -> strict_loop f N order X (top_space (nvars N)) = strict_loop (S (nvars N)) N order X (top_space (nvars N)).
 Proof. exact strict_loop_fuel_enough. Qed.
@@ -32,6 +36,7 @@ Theorem C19_find_node_exact : forall (N : net) (d : sd) (X : list (option bool))
 Proof. exact find_node_exact. Qed.
 
 Print Assumptions C19_percolation_order_independent.
+Print Assumptions C19_strict_order_independent.
 Print Assumptions C19_strict_fuel.
 Print Assumptions C19_sort_by_key_perm.
 Print Assumptions C19_space_key_inj.
